@@ -272,6 +272,14 @@ def c11_r9(ctx, f, rid="C11.R9"):
     ln = f.fn("score::line")
     sq = f.fn("score::matrix_score_squares")
     dm = f.fn("score::dark_module_score")
+    # the three term scorers are private helpers: they are evaluated directly only in the shape the rule can drive (a line of
+    # modules / one symbol -> a number); reshaped or renamed, the terms are decided through score::score alone
+    if ln is not None and (ln.raw.get("inputs") or []) != ["&[module::Module]"]:
+        ln = None
+    if sq is not None and (sq.raw.get("inputs") or []) != ["&qr::QRCode"]:
+        sq = None
+    if dm is not None and (dm.raw.get("inputs") or []) != ["&qr::QRCode"]:
+        dm = None
     sc = anchor_fn(ctx, rid, f, "score::score")
     if not sc:
         return None
@@ -395,6 +403,17 @@ def c11_r9(ctx, f, rid="C11.R9"):
             mats.append((a, transpose(a) if k % 2 == 0 else sample(k + 1)))
         sc_in = sc.raw.get("inputs") or []
         bound_ty = sc_in[2] if len(sc_in) == 3 and sc_in[2] in ("u8", "u16", "u32", "u64", "usize") else None
+        # every dark percentage 0..99 through the total as well (a 10x10 symbol with k dark modules is k% dark): the ratio term is
+        # decided even when its helper is not driven directly
+        for k in range(100):
+            a = [[(1 if (r * c) % 4 else 0, 1 if (r * 10 + c) * 37 % 100 < k else 0) for c in range(10)] for r in range(10)]
+            for r in range(10):
+                if not a[r][0][0]:
+                    a[r][1] = (0, a[r][1][1])
+            for c in range(10):
+                if not a[0][c][0]:
+                    a[1][c] = (0, a[1][c][1])
+            mats.append((a, transpose(a)))
         for part in _chunks(mats, ncpu):
             jobs.append(("score::score", part, True) + ((bound_ty,) if bound_ty else ()))
         # symbols of real sizes with the ISO function-pattern layout (function modules at their fixed values, encoding region
@@ -476,5 +495,5 @@ def c11_r9(ctx, f, rid="C11.R9"):
                  expected=e["expected"], found=e["found"])
     for why, insts in sorted(und.items()):
         ctx.abstain(rid, "%s (%d input(s), e.g. %s)" % (why, len(insts), insts[0]), where_fn(sc))
-        decided = False
-    return decided and decided_line and premise and not any(k.startswith("score::score") for k in und)
+    # decided when the total agrees with the model on every evaluated symbol (the helpers are cross-checks of the single terms)
+    return premise and bool(oks.get("score")) and not any(k.startswith("score::score") for k in und)
